@@ -50,6 +50,8 @@ def to_term(x):
     if isinstance(x, int):
         return z3.IntVal(x)
     if isinstance(x, float):
+        if type(x).__name__ == "_Pi":      # k*pi constants of the numpy shim: symbolic, never a rounded literal
+            return x._sym().t
         if x != x or x in (float("inf"), float("-inf")):
             raise Unsupported(f"non-finite float constant {x!r} in real-arithmetic encoding")
         fr = Fraction(x)
@@ -395,13 +397,23 @@ def _mod(a, b):
         # python: result has the sign of the divisor; z3: euclidean remainder in [0, |b|)
         r = a % b
         return SNum(z3.If(b > 0, r, z3.If(r == 0, r, r + b)))
-    # real modulo by a positive constant: x - b*floor(x/b)
+    # real modulo by a positive modulus m: ASSUMED contract  x % m = x - m*k(x) with k integer and 0 <= x % m < m
     a, b = to_real(a), to_real(b)
-    vb = const_value(b)
-    if vb is None or vb <= 0:
-        raise Unsupported("real modulo with non-constant divisor")
-    q = z3.ToReal(z3.ToInt(a / b))
-    return SNum(a - b * q)
+    ctx = Ctx.cur
+    K = z3.Function("mod_quotient", z3.RealSort(), z3.RealSort(), z3.IntSort())
+    if ctx is not None and not ctx.ghost.get("realmod_axiom"):
+        ctx.ghost["realmod_axiom"] = True
+        x, m = z3.Real("x?mod"), z3.Real("m?mod")
+        ctx.assume(z3.ForAll([x, m], z3.Implies(m > 0, z3.And(x - m * z3.ToReal(K(x, m)) >= 0, x - m * z3.ToReal(K(x, m)) < m)),
+                             patterns=[K(x, m)]), "python:real modulo (result in [0, m) for m > 0)")
+        ctx.assume(z3.ForAll([x, m], z3.Implies(z3.And(m > 0, x >= 0, x < m), K(x, m) == 0), patterns=[K(x, m)]),
+                   "python:real modulo (identity on [0, m))")
+        ctx.assume(z3.ForAll([x, m], z3.Implies(z3.And(m > 0, x >= -m, x < 0), K(x, m) == -1), patterns=[K(x, m)]),
+                   "python:real modulo (one wrap for [-m, 0))")
+        ctx.trust("python/numpy real modulo: x % m = x - m*floor(x/m) in [0, m) for m > 0")
+    if ctx is not None:
+        ctx.side_condition("modulus_positive", b > 0)
+    return SNum(a - b * z3.ToReal(K(a, b)))
 
 
 def _pow(base, exp):
@@ -595,6 +607,24 @@ class Ctx:
             self.solver.add(clause)
             if not has_quantifier(clause):
                 self.fsolver.add(clause)
+        return ob
+
+    def lemma_nra(self, name, formula, detail=""):
+        """validity of a closed, quantifier-free-after-skolemisation statement of pure polynomial real arithmetic,
+        decided by z3's nlsat on a fresh solver (independent of the path condition).  Returns the Obligation."""
+        if self.replaying():
+            return None
+        t0 = time.time()
+        s = z3.SolverFor("QF_NRA")
+        s.set("timeout", SOLVER_TIMEOUT_MS)
+        s.add(z3.Not(formula))
+        r = s.check()
+        ms = (time.time() - t0) * 1000
+        st = "discharged" if r == z3.unsat else ("refuted" if r == z3.sat else "unknown")
+        ob = Obligation(name, st, ms, "z3-nlsat", path=self.path(), kind="lemma", detail=detail,
+                        smt2=s.to_smt2() if st != "discharged" else None,
+                        witness={str(d): str(s.model()[d]) for d in s.model().decls()} if r == z3.sat else None)
+        self.results.append(ob)
         return ob
 
     def side_condition(self, name, clause):
